@@ -183,7 +183,7 @@ func c18(c *Ctx) {
 			blk := cd.EdgeWhen(true).To()
 			okRet := false
 			for _, ins := range blk.Instrs {
-				if ret, ok := ins.(*ssa.Return); ok && len(ret.Results) == 2 && strings.Contains(tr.OriginString(an.RetVal(ret, 0)), "alloc:telegram.InputCheckPasswordEmpty") {
+				if ret, ok := an.AsReturn(ins); ok && len(ret.Results) == 2 && strings.Contains(tr.OriginString(an.RetVal(ret, 0)), "alloc:telegram.InputCheckPasswordEmpty") {
 					okRet = true
 				}
 			}
@@ -286,7 +286,7 @@ func c18Validate(c *Ctx, v *ssa.Function, tr *an.Tracer) {
 	var nilRets []ssa.Instruction
 	for _, b := range v.Blocks {
 		for _, in := range b.Instrs {
-			if ret, ok := in.(*ssa.Return); ok && len(ret.Results) == 1 && an.IsNilConst(an.RetVal(ret, 0)) {
+			if ret, ok := an.AsReturn(in); ok && len(ret.Results) == 1 && an.IsNilConst(an.RetVal(ret, 0)) {
 				nilRets = append(nilRets, ret)
 			}
 		}
